@@ -9,13 +9,20 @@ package lexer
 //@   && (l.position < slen(l.input) ==> (l.ch == runeAt(l.input, l.position) && l.readPosition == l.position + sizeAt(l.input, l.position)))
 //@   && (l.position >= slen(l.input) ==> (l.ch == 0 && l.readPosition == l.position))
 //@   && ((l.position < slen(l.input) && l.ch < 128) ==> l.readPosition == l.position + 1)
-//@   && l.lineNumber == LineOf(l.input, l.position)
+//@   && l.lineNumber == LineOf(l.input, l.position) && 1 <= l.lineNumber
+//@   && len(l.queuedTokens) <= 1 && (forall q int :: {l.queuedTokens[q]} (0 <= q && q < len(l.queuedTokens)) ==> TokLines(l.queuedTokens[q], l.lineNumber))
 //@   && 0 <= LineStart(l.input, l.position) && LineStart(l.input, l.position) <= l.position
 //@   && l.charNumber == l.readPosition - LineStart(l.input, l.position)
 //@   && l.prevCharNumber == l.position - LineStart(l.input, l.position)
 //@   && (l.position < slen(l.input) ==> (l.utf8CharNumber == Runes(l.input, LineStart(l.input, l.position), l.readPosition)
 //@        && l.prevUtf8CharNumber == Runes(l.input, LineStart(l.input, l.position), l.position)
 //@        && l.utf8CharNumber == l.prevUtf8CharNumber + 1))
+
+// a token's line range lies inside what has been read: 1 <= first line <= last line <= current line (C16, C18)
+//@ pred TokLines(t token.Token, cur int) = 1 <= t.LineNumber && t.LineNumber <= t.EndLineNumber && t.EndLineNumber <= cur
+
+// lower bound on the first line of every token still to be delivered (C18: error ranges start <= end)
+//@ pred MinLine(l *Lexer) = (len(l.queuedTokens) > 0 ? l.queuedTokens[0].LineNumber : l.lineNumber)
 
 //@ pred IsBlank(r int) = r == ' ' || r == '\t' || r == '\n' || r == '\r'
 
@@ -24,7 +31,7 @@ package lexer
 
 // state of a freshly allocated lexer, before the first readChar
 //@ pred LexInit(l *Lexer) = l.position == 0 && l.readPosition == 0 && l.ch == 0 && l.lineNumber == 1 && l.charNumber == 0
-//@   && l.prevCharNumber == 0 && l.utf8CharNumber == 0 && l.prevUtf8CharNumber == 0
+//@   && l.prevCharNumber == 0 && l.utf8CharNumber == 0 && l.prevUtf8CharNumber == 0 && len(l.queuedTokens) == 0
 
 //@ func (l *Lexer) readChar
 //@   requires ValidUTF8(l.input) && (LexInv(l) || LexInit(l))
@@ -175,6 +182,7 @@ package lexer
 //@   modifies l.ch, l.position, l.readPosition, l.lineNumber, l.prevCharNumber, l.charNumber, l.prevUtf8CharNumber, l.utf8CharNumber
 //@   ensures [C19:inv] LexInv(l) && Advanced(l, old(l.position), old(l.input), old(l.lineNumber))
 //@   ensures [C19:pos-string] TokStart(l, result, old(l.position)) && result.Type == token.STRING && result.LineNumber <= result.EndLineNumber
+//@   ensures [C16,C18:tok-lines] TokLines(result, l.lineNumber)
 //@   ensures [C18:progress] l.position > old(l.position)
 //@ end
 
@@ -199,6 +207,8 @@ package lexer
 //@   ensures [C19:pos-illegal] (len(old(l.queuedTokens)) == 0 && result.Type == token.ILLEGAL)
 //@        ==> (TokStart(l, result, l.position - slen(result.Literal)) && TokSpan(l, result, l.position - slen(result.Literal), l.position) && slen(result.Literal) > 0)
 //@   ensures [C19:pos-eof] (len(old(l.queuedTokens)) == 0 && result.Type == token.EOF) ==> (result.EndLineNumber == result.LineNumber && result.EndCharIndex == result.StartCharIndex && result.Literal == "" && result.LineNumber <= l.lineNumber)
+//@   ensures [C16,C18:tok-lines] TokLines(result, l.lineNumber)
+//@   ensures [C18:tok-order] old(MinLine(l)) <= result.LineNumber && result.LineNumber <= MinLine(l)
 //@   ensures [C18:progress] (len(old(l.queuedTokens)) == 0 && result.Type != token.EOF) ==> l.position > old(l.position)
 //@   ensures [C18:eof-absorbing] (len(old(l.queuedTokens)) == 0 && old(l.position) >= slen(l.input)) ==> (result.Type == token.EOF && l.position == old(l.position))
 //@   loop 1
